@@ -22,6 +22,7 @@ def gen_style_spec(rng: random.Random) -> str:
 
 def gen_widgets(rng: random.Random, term: str):
     n = rng.choice([1, 2, 2, 3, 4])
+    mixed = rng.random() < 0.5
     ws = []
     for _ in range(n):
         style = rng.choice({"konsole": ["kitty", "kitty", "iterm2", "iterm2", "block"],
@@ -32,6 +33,7 @@ def gen_widgets(rng: random.Random, term: str):
             "iw": rng.choice([4, 8, 16, 40, rng.randrange(4, 60)]),
             "ih": rng.choice([4, 8, 16, 40, rng.randrange(4, 60)]),
             "upscale": rng.random() < 0.6,
+            "cls": rng.choice([0, 0, 1, 2]) if mixed else 0,  # UrwidImage / application-defined subclasses
             "fmt": (rng.choice(["", "", "<", ">", ".^", "._", "<.^", ">._", "|.-"]) if rng.random() < 0.4 else "")
             + (gen_style_spec(rng) if style == "kitty" and rng.random() < 0.35 else ""),
             "color": [rng.randrange(256) for _ in range(3)],
@@ -183,18 +185,23 @@ def gen_script(rng: random.Random, tier: str = "quick"):
     n = rng.randrange(5 if layout[0] == "fcols" else 2, 9 if tier == "quick" else 14)
     for i in range(n):
         r = rng.random()
-        if i and r < 0.06:
+        if i and r < 0.03:
             sc["steps"].append({"op": "clear"})
-        elif i and r < 0.09:
+        elif i and r < 0.08 and i < n - 1:
+            # urwid's "redraw screen": clear(), then the very same (cached) canvas object is drawn again;
+            # what matters is the next redraw, where images move
+            sc["steps"].append({"op": "clear"})
+            sc["steps"].append({"op": "draw", "same": True})
+        elif i and r < 0.11:
             sc["steps"].append({"op": "stop"})
             sc["steps"].append({"op": "start"})
-        elif i and r < 0.13:
+        elif i and r < 0.15:
             sc["steps"].append({"op": "draw", "same": True})
         elif i == n - 1 and r < 0.25:
             # a canvas of the wrong size makes the base class raise: only as the last step (what the
             # screen shows after the caller broke draw_screen's precondition is not judged)
             sc["steps"].append({"op": "draw", "layout": layout, "badsize": True})
-        elif i and r < 0.19 and not any(st["op"] == "clear_images" for st in sc["steps"]):
+        elif i and r < 0.21 and not any(st["op"] == "clear_images" for st in sc["steps"]):
             # at most one explicit clear per history (docs/C18.md: the 3-cycle of disguises collides when a
             # widget is cleared 3 times between two emissions of a row; a redraw of an unchanged — possibly
             # cached — canvas emits nothing, so "between two redraws" cannot be decided when generating)
